@@ -1874,7 +1874,8 @@ class RTCSctpTransport(AsyncIOEventEmitter):
             msg_type = data[0]
             if msg_type == DATA_CHANNEL_OPEN and len(data) >= 12:
                 # we should not receive an open for an existing channel
-                assert stream_id not in self._data_channels
+                if stream_id in self._data_channels:
+                    return
 
                 (
                     msg_type,
@@ -1885,9 +1886,12 @@ class RTCSctpTransport(AsyncIOEventEmitter):
                     protocol_length,
                 ) = unpack_from("!BBHLHH", data)
                 pos = 12
-                label = data[pos : pos + label_length].decode("utf8")
-                pos += label_length
-                protocol = data[pos : pos + protocol_length].decode("utf8")
+                try:
+                    label = data[pos : pos + label_length].decode("utf8")
+                    pos += label_length
+                    protocol = data[pos : pos + protocol_length].decode("utf8")
+                except UnicodeDecodeError:
+                    return
 
                 # check channel type
                 maxPacketLifeTime = None
@@ -1925,7 +1929,11 @@ class RTCSctpTransport(AsyncIOEventEmitter):
                     channel._setReadyState("open")
         elif pp_id == WEBRTC_STRING and stream_id in self._data_channels:
             # emit message
-            self._data_channels[stream_id].emit("message", data.decode("utf8"))
+            try:
+                message = data.decode("utf8")
+            except UnicodeDecodeError:
+                return
+            self._data_channels[stream_id].emit("message", message)
         elif pp_id == WEBRTC_STRING_EMPTY and stream_id in self._data_channels:
             # emit message
             self._data_channels[stream_id].emit("message", "")
